@@ -263,9 +263,9 @@ Qed.
 Definition sched_start_during_stopping : list lab :=
   sched_start_running
   ++ [LW 0; LW 0]                              (* handler returns, loop head *)
-  ++ [LW 2; LW 0]                              (* bound reached, bound < end; STOPPING written *)
+  ++ [LW 2; LW 0; LW 0]                        (* bound reached, bound < end; STOPPING written; STOP event *)
   ++ [LI OStart] ++ rep_lab 8 (LM 0)           (* checks pass, STARTING, STARTING event, wake-up *)
-  ++ rep_lab 5 (LW 0)                          (* STOP event, STOPPED, not ending, clear, wait again *)
+  ++ rep_lab 4 (LW 0)                          (* STOPPED, not ending, clear, wait again *)
   ++ [LM 0; LM 0].                             (* gives up, _runflag = False, returns *)
 
 Theorem overlap_start_stopping_refuted :
@@ -285,7 +285,7 @@ Qed.
 Definition sched_endrepl_lost_wakeup : list lab :=
   sched_start_running
   ++ [LW 0; LW 0; LW 2; LW 0]                  (* bounded run reaches its bound: STOPPING *)
-  ++ rep_lab 3 (LW 0)                          (* STOP event, STOPPED, "not ENDING" *)
+  ++ rep_lab 3 (LW 0)                          (* STOP event, STOPPED, not ending *)
   ++ [LI OEndRepl] ++ rep_lab 4 (LM 0)         (* check, clock := end, ENDING, wake-up *)
   ++ rep_lab 2 (LW 0).                         (* clear, wait again *)
 
@@ -301,7 +301,7 @@ Qed.
 
 (* the schedules are inside the unsafe windows, as they must be *)
 Example races_outside_safe_windows :
-  safe_pair WExec OStop = false /\ safe_pair WFireStop OStart = false /\ safe_pair WClear OEndRepl = false.
+  safe_pair WExec OStop = false /\ safe_pair WSetStopped OStart = false /\ safe_pair WClear OEndRepl = false.
 Proof. auto. Qed.
 
 (* non-vacuity of (1)-(3): quiescent states with an ended replication are reachable *)
